@@ -373,6 +373,15 @@ class KeyedSet(Generic[ItemType, KeyType], MutableSet, KeyedBase):  # pylint: di
         except TypeError:
             pass
 
+    def _from_iterable(self, iterable):
+        # Used by the `Set` mixins to build the results of `|`, `&`, `-` and
+        # `^`: they must identify items the same way as this set does.
+        return type(self)(
+            iterable,
+            key=self._key,
+            enforce_item_equivalence=self.enforce_item_equivalence,
+        )
+
     # Magic methods
 
     def __eq__(self, other):
